@@ -1651,7 +1651,7 @@ class TypeBlocks(ContainerOperand):
 
                 # match sliceable, when target_key is a slice (can be an element)
                 if (target_is_slice and
-                        not isinstance(value, str)
+                        not isinstance(value, (str, bytes))
                         and hasattr(value, '__len__')):
                     if block_is_column:
                         v_width = 1
